@@ -5,7 +5,7 @@ CONSTANTS
   ConfigInherited = FALSE
   NMax = 3
   MaxW = 3
-  Mixes = {1, 2}
+  Mixes = {1, 2, 3}
   Level = 2
   PathSel = "all"
 INIT MCInit
